@@ -282,17 +282,13 @@ fn hot_chain_x(mode: Mode, depth: usize, k: usize, binary: bool, last_binary: bo
   let mut unsub: Option<BoxSubscription<'static>> = Some(subscribe(o, probe));
   let names = stage_names(&stages);
   let cut = if mode == Mode::Unsub { e::choose(k as u32 + 1) as usize } else { usize::MAX };
-  let by_guard = mode == Mode::Unsub && e::choose_bool();
+  let by_guard = if mode == Mode::Unsub { e::choose(3) } else { 0 };
   let mut evs0: Vec<Ev> = vec![];
   let mut closed_seen = false;
   for step in 0..=k {
     if step == cut {
       if let Some(u) = unsub.take() {
-        if by_guard {
-          drop(u.unsubscribe_when_dropped());
-        } else {
-          u.unsubscribe();
-        }
+        release(u, by_guard);
         probe.silence();
         e::note("unsubscribe()".to_string());
         for t in &tags {
@@ -472,11 +468,11 @@ pub(crate) fn c15_finalize(k: usize, threads_form: bool) {
   };
   let mut unsub: Option<Box<dyn FnOnce()>>;
   let mut feeder: Box<dyn FnMut(&Ev)>;
-  let by_guard = e::choose_bool();
+  let by_guard = e::choose(3);
   // a source that never terminates and whose own subscription is the unit type (reports closed at once)
   let never_src = pre.is_none() && post.is_none() && e::choose(4) == 0;
   if never_src {
-    e::note(format!("never().finalize{} ; released by {}", if threads_form { "_threads" } else { "" }, if by_guard { "guard drop" } else { "unsubscribe()" }));
+    e::note(format!("never().finalize{} ; released by {}", if threads_form { "_threads" } else { "" }, how_name(by_guard)));
     let src = observable::never().map(|_: ()| Val::c(0)).on_error_map(|_: std::convert::Infallible| Val::c(0));
     // the handle as returned, or type-erased in a BoxSubscription(Threads) as boxed pipelines return it
     let boxed = e::choose_bool();
@@ -490,15 +486,9 @@ pub(crate) fn c15_finalize(k: usize, threads_form: bool) {
       }
       if boxed {
         let u = BoxSubscriptionThreads::new(u);
-        if by_guard {
-          drop(u.unsubscribe_when_dropped());
-        } else {
-          u.unsubscribe();
-        }
-      } else if by_guard {
-        drop(u.unsubscribe_when_dropped());
+        release(u, by_guard);
       } else {
-        u.unsubscribe();
+        release(u, by_guard);
       }
     } else {
       let u = src.finalize(fin_cb).actual_subscribe(probe);
@@ -507,15 +497,9 @@ pub(crate) fn c15_finalize(k: usize, threads_form: bool) {
       }
       if boxed {
         let u = BoxSubscription::new(u);
-        if by_guard {
-          drop(u.unsubscribe_when_dropped());
-        } else {
-          u.unsubscribe();
-        }
-      } else if by_guard {
-        drop(u.unsubscribe_when_dropped());
+        release(u, by_guard);
       } else {
-        u.unsubscribe();
+        release(u, by_guard);
       }
     }
     if world::counter(1) != 1 {
@@ -539,7 +523,7 @@ pub(crate) fn c15_finalize(k: usize, threads_form: bool) {
       }
       None => BoxSubscription::new(o.actual_subscribe(probe)),
     };
-    unsub = Some(Box::new(move || if by_guard { drop(u.unsubscribe_when_dropped()) } else { u.unsubscribe() }));
+    unsub = Some(Box::new(move || release(u, by_guard)));
     cat::add_late_sibling(0);
     feeder = Box::new(move |ev| {
       cat::feed_hot(0, ev);
@@ -557,7 +541,7 @@ pub(crate) fn c15_finalize(k: usize, threads_form: bool) {
       }
       None => BoxSubscriptionThreads::new(o.actual_subscribe(probe)),
     };
-    unsub = Some(Box::new(move || if by_guard { drop(u.unsubscribe_when_dropped()) } else { u.unsubscribe() }));
+    unsub = Some(Box::new(move || release(u, by_guard)));
     cat::add_late_sibling(0);
     feeder = Box::new(move |ev| {
       cat::feed_hot_t(0, ev);
